@@ -18,6 +18,7 @@ open Irismod Irismod.Sdk Irismod.Htlc Irismod.Spec.C03 Irismod.Spec.C04 Irismod.
 #print axioms duplicate_id_rejected
 #print axioms right_secret_accepted_plain
 #print axioms right_secret_accepted_outgoing
+#print axioms claimLive_sound
 #print axioms claim_exact
 #print axioms create_exact
 #print axioms refund_exact
